@@ -242,8 +242,11 @@ fn fixtures() -> Fx {
     // distinct offsets, none of them equal to a real zone's or a rule's used below, none 0
     for (i, off) in [5400i32, -8100, 25620, 40260, -35100, 13 * 3600 + 1, -11 * 3600 - 59, 1].iter().enumerate() {
         let p = format!("{}/syn{}.tzif", cwd, i);
-        let abbr = format!("SY{}", (b'A' + i as u8) as char);
-        let bytes = if i == 2 { tzif_v1(*off, &abbr) } else { tzif_v2(*off, &abbr, &posix_fixed(&abbr, *off)) };
+        // abbreviations that together use every character class a designation may contain (letters of
+        // both cases, every digit, `+`, `-`)
+        let abbr = ["SYA", "+0918", "-27z", "q36", "SYE", "A45", "Zz+-", "b90"][i].to_string();
+        let quoted = if abbr.bytes().all(|b| b.is_ascii_alphabetic()) { abbr.clone() } else { format!("<{}>", abbr) };
+        let bytes = if i == 2 { tzif_v1(*off, &abbr) } else { tzif_v2(*off, &abbr, &posix_fixed(&quoted, *off)) };
         std::fs::write(&p, bytes).unwrap();
         syn.push((p, *off));
     }
@@ -278,6 +281,10 @@ fn fixtures() -> Fx {
         ("Asia/Kolkata", 19800),
         ("Australia/Sydney", 39600),
         ("America/St_Johns", -12600),
+        // numeric abbreviations (`+09`, `-0930`, `+0545`)
+        ("Asia/Yakutsk", 32400),
+        ("Pacific/Marquesas", -34200),
+        ("Asia/Kathmandu", 20700),
     ]
     .into_iter()
     .filter(|(n, _)| std::fs::metadata(format!("{}/{}", TZDB, n)).map(|m| m.is_file()).unwrap_or(false))
@@ -290,6 +297,11 @@ fn fixtures() -> Fx {
         ("AAA-2BBB,M3.5.0,M10.5.0", 7200),
         ("  XYZ-7:30\t", 27000),
         ("QQQ-9:15:30", 33330),
+        ("<+09>-9:00:01", 32401),
+        ("<-0930>9:30:02", -34202),
+        ("<12345>-1:01", 3660),
+        ("<67890>1:02", -3720),
+        ("<aZ+-9>-3:03", 10980),
     ];
     let sysname = system_zone_name();
     let mtime = std::fs::symlink_metadata(LOCALTIME)
